@@ -131,6 +131,15 @@ impl Socket {
   ///
   /// The `frames` Vec should have MsgFlags::MORE set correctly on all but the last Msg.
   pub async fn send_multipart(&self, frames: Vec<Msg>) -> Result<(), ZmqError> {
+    // A `FrameBatch` holds at most 255 frames; converting a longer Vec would panic.
+    const MAX_FRAMES_PER_MESSAGE: usize = u8::MAX as usize;
+    if frames.len() > MAX_FRAMES_PER_MESSAGE {
+      return Err(ZmqError::InvalidMessage(format!(
+        "multipart message has {} frames; at most {} are supported",
+        frames.len(),
+        MAX_FRAMES_PER_MESSAGE
+      )));
+    }
     self.inner.send_multipart(FrameBatch::from(frames)).await
   }
 
